@@ -191,19 +191,19 @@ UNITS = {
     'K3t': {
         'engine': 'kani', 'crate': 'toml_datetime',
         'harnesses': ['k3_len4', 'k3_len5', 'k3_len6', 'k3_len7', 'k3_len9', 'k3_date10', 'k3_frac1', 'k3_frac3'],
-        'complete': True, 'timeout': 2400,
+        'complete': True, 'timeout': 4800,
         'title': 'Datetime::from_str == O-dt in situ on every string of 4-7, 9, 10 bytes; "12:34:56." + every 1- and 3-byte tail',
         'witness': ['witness-k3'], 'replay': 'replay-k3',
     },
     'K3a': {
         'engine': 'kani', 'crate': 'toml_datetime', 'harnesses': ['k3a_len11', 'k3a_len12'], 'complete': False,
-        'bound': 'every ASCII string of 11 and 12 bytes', 'timeout': 2400,
+        'bound': 'every ASCII string of 11 and 12 bytes', 'timeout': 5400,
         'title': 'Datetime::from_str == O-dt in situ on every ASCII string of 11 and 12 bytes (bounded: ASCII only)',
         'witness': ['witness-k3'], 'replay': 'replay-k3',
     },
     'K5': {
         'engine': 'kani', 'crate': 'toml_edit', 'harnesses': ['k5_hexescape4', 'k5_hexescape8'], 'complete': True,
-        'timeout': 3000, 'max_jobs': 4,
+        'timeout': 7200, 'max_jobs': 4,
         'title': 'hexescape::<4>/<8> == O-esc hex_scalar on every 5- / 9-byte input (digits + lookahead)',
     },
     'K8q': {
@@ -223,7 +223,7 @@ UNITS = {
         'engine': 'kani', 'crate': 'toml_edit',
         'harnesses': ['k8_post_n4'],
         'complete': False, 'bound': 'every valid UTF-8 input of 4 bytes x every index',
-        'timeout': 3000,
+        'timeout': 5400,
         'title': 'translate_position contract on 4-byte inputs (bounded)',
         'witness': ['witness-k8'], 'replay': 'replay-k8',
     },
